@@ -19,6 +19,7 @@ from ..core import META, Ctx, RuleResult, rule
 from ..dataflow import dataflow_of
 from ..model import AnalysisError, Cls, Func, norm_stmt, parent
 from ..paths import PathFinder, describe_path
+from ..pattern import norm
 from ..terms import Term, alts, attr_chain, contains, root_of, show, subterms
 from ..util import calls_in, module_const, nodes_in
 
@@ -73,8 +74,17 @@ class Anchors:
         for m in self.cls.methods.values():
             for n in nodes_in(m, ast.If):
                 t = self.ctx.X.at(m, n.test)
-                has_cmp = contains(t, lambda s: s[0] == "call" and s[1][0] == "global" and s[1][1] in ("numpy.allclose", "numpy.array_equal", "numpy.array_equiv")
-                                   and any(contains(a, lambda x: x[0] == "param") for a in s[2]) and any(contains(a, lambda x: x[0] == "attr" and root_of(x)[0] == "param" and root_of(x)[2] == m.positional[0]) for a in s[2]))
+                def is_key_cmp(s, m=m):
+                    if s[0] == "call" and s[1][0] == "global" and s[1][1] in ("numpy.allclose", "numpy.array_equal", "numpy.array_equiv", "numpy.isclose", "numpy.equal"):
+                        args = s[2]
+                    elif s[0] == "cmp" and s[1] in ("==", "!="):
+                        args = (s[2], s[3])
+                    else:
+                        return False
+                    return (len(args) >= 2 and any(a[0] == "param" and a[2] != m.positional[0] for a in args)
+                            and any(a[0] == "attr" and root_of(a)[0] == "param" and root_of(a)[2] == m.positional[0] for a in args))
+
+                has_cmp = contains(t, is_key_cmp)
                 resets = [x for s in n.body for x in ast.walk(s) if isinstance(x, ast.Assign) and any(isinstance(t2, ast.Attribute) for t2 in x.targets)]
                 if has_cmp and resets:
                     best = (m, n)
@@ -309,10 +319,23 @@ def c07_2(ctx: Ctx) -> RuleResult:
     has_shape = any(d[0] == "cmp" and d[1] == "!=" and "shape" in show(d) for d in disj)
     cmp_calls = [s for d in disj for s in subterms(d) if s[0] == "call" and s[1][0] == "global" and s[1][1] in ("numpy.allclose", "numpy.array_equal", "numpy.array_equiv")]
     has_close = any(d[0] == "unary" and d[1] == "not" and d[2] in cmp_calls for d in disj)
+    if not has_close:
+        # element-wise spellings: `not (isclose(a, b)).all()` / `(a != b).any()`; every
+        # element of the request (all rows of a batch) must take part: one `all` over
+        # everything, never an `any` over rows of matches
+        for d in disj:
+            nd = norm(d)
+            inner = nd[2] if nd[0] == "unary" and nd[1] == "not" else None
+            if inner is not None and inner[0] == "call" and inner[1] == ("global", "numpy.all") and not inner[3] and inner[2] and inner[2][0][0] in ("call", "cmp") and not contains(inner[2][0], lambda s: s[0] == "call" and s[1] in (("global", "numpy.any"), ("global", "numpy.all"))):
+                has_close = True
+            if nd[0] == "call" and nd[1] == ("global", "numpy.any") and not nd[3] and nd[2] and nd[2][0][0] == "cmp" and nd[2][0][1] == "!=":
+                has_close = True
     res.add(V, node, "guard disjunct: no key stored yet (`key is None`)", has_none, "" if has_none else "missing `is None` disjunct", construct="guard: key is None")
     res.add(V, node, "guard disjunct: shape of the request differs from the key's shape", has_shape,
             "" if has_shape else "a batch of another size would be compared by broadcasting (or raise)", construct="guard: shape differs")
-    res.add(V, node, "guard disjunct: `not allclose(variables, key)`", has_close, "" if has_close else "missing value comparison", construct="guard: not allclose")
+    res.add(V, node, "guard disjunct: `not allclose(variables, key)` - the whole request (every row of a batch) equals the key", has_close,
+            "" if has_close else "the value comparison does not require *all* elements of the request to match the key (e.g. `.all(axis=-1).any()`): a batch sharing one member with the cached batch is served the cached values of the other members",
+            construct="guard: not allclose")
     for c in cmp_calls:
         tol_ok, why = _tolerances_ok(c)
         res.add(V, node, f"comparison tolerances stay below the point separation {SEPARATION:g}", tol_ok, why, construct="guard: tolerances")
@@ -401,14 +424,18 @@ class ProtoHooks(Hooks):
         # methods with loops over unknown-length tables: summarise field stores
         if self.A.nc_cls is not None and f.cls is self.A.nc_cls and f.name.startswith("set_") and isinstance(self_obj, Obj):
             s2 = st.copy()
-            stored = set()
-            for n in nodes_in(f, ast.Assign):
-                for t in n.targets:
-                    base = t
-                    while isinstance(base, ast.Subscript):
-                        base = base.value
-                    if isinstance(base, ast.Attribute) and isinstance(base.value, ast.Name) and base.value.id == f.positional[0]:
-                        stored.add(base.attr)
+            cache = self.__dict__.setdefault("_stored_cache", {})
+            stored = cache.get(f.qualname)
+            if stored is None:
+                stored = set()
+                for n in nodes_in(f, ast.Assign):
+                    for t in n.targets:
+                        base = t
+                        while isinstance(base, ast.Subscript):
+                            base = base.value
+                        if isinstance(base, ast.Attribute) and isinstance(base.value, ast.Name) and base.value.id == f.positional[0]:
+                            stored.add(base.attr)
+                cache[f.qualname] = stored
             for fld in stored:
                 s2.heap.setdefault(self_obj.name, {})[fld] = join(*args, *kwargs.values())
             return [(s2, None)]
@@ -433,6 +460,8 @@ class ProtoHooks(Hooks):
             if isinstance(a, Pt) and isinstance(b, Pt):
                 return [(st, a.name == b.name)]
             return [(st, TOP)]
+        if text in ("numpy.isclose", "numpy.equal", "numpy.not_equal"):
+            return [(st, TOP)]  # element-wise result: its reductions are not modelled
         if text == "numpy.array" and not args:
             return [(st, Arr(frozenset(["empty"])))]
         if text == "numpy.array" and args and isinstance(args[0], ListRef) and not st.lists.get(args[0].id):
